@@ -382,7 +382,9 @@ pub fn check_session(case: &SessionCase, obs: &mut Obs) -> Result<(), Fail> {
         // read the replies
         let mut buf: Vec<u8> = vec![];
         let mut replies: Vec<RVal> = vec![];
-        let deadline = tokio::time::Instant::now() + Duration::from_secs(20);
+        // (while a failing case is being shrunk a shorter allowance keeps the search affordable)
+        let allowance = if IS_SHRINKING.with(|f| f.get()) { 4 } else { 20 };
+        let deadline = tokio::time::Instant::now() + Duration::from_secs(allowance);
         while replies.len() < expected.len() {
             let mut chunk = [0u8; 4096];
             let n = match tokio::time::timeout_at(deadline, sock.read(&mut chunk)).await {
@@ -400,9 +402,11 @@ pub fn check_session(case: &SessionCase, obs: &mut Obs) -> Result<(), Fail> {
         ensure!(
             replies.len() == expected.len(),
             "C08:missing-replies",
-            "{} requests were written on the connection, {} replies came back within 20 s (connection still open); backend connections: {}, cuts: {:?}",
+            "{} requests were written on the connection, {} replies came back within {} s (connection still open); lazy reader: {}; backend connections: {}, cuts: {:?}",
             expected.len(),
             replies.len(),
+            allowance,
+            case.lazy_reader,
             be.conn_count.load(std::sync::atomic::Ordering::SeqCst),
             be.cuts.lock()
         );
@@ -495,7 +499,7 @@ pub fn enumerated_cases() -> Vec<NodeCase> {
 pub const RULE_ENUM: &str = "[enumerated] fixed pipelines (6 requests in one burst; 4+4 in two bursts) x every cut position of the first connection's reply byte stream (0..=total bytes) and every cut-after-request count x {disabled, fixed, dynamic} batching x 3 fragmentations x 2 coalescing factors x second connection {clean, refused once, cut again at 3 positions, cut on 5 consecutive connections}; same oracle as backend-node; exhaustive over this grid";
 
 pub const RULE_NODE: &str = "[backend-node] the real BackendNode/handle_backend with the real ReplyCommitHandler and real CmdCtx tasks over a scripted backend behind the ConnFactory seam (real RespCodec over an in-memory duplex byte stream): pipelines of up to ~60 requests with unique ids in generated bursts; per connection a generated plan: refuse, reply latency, byte-level fragmentation of the reply stream, coalescing of several replies into one write, stall after n requests (backend_timeout 50/500/3000 ms), cut after byte n of the reply stream / after request m, then the next connection's plan; batching in {disabled, fixed, dynamic}; oracle: every request resolves exactly once within bounded virtual time, a successful reply carries the request's own id, otherwise an error; the backend sees a request at most 4 times; non-trivial = a cut strictly inside the reply stream with requests on both sides, or fragmentation inside a packet";
-pub const RULE_SESSION: &str = "[session] the full stack over loopback TCP: real handle_session -> Session -> ForwardHandler -> scripted backend (backend_conn_num 1..3); pipelined requests (backend GETs interleaved with locally answered PING/ECHO) written in generated fragments; oracle: reply k answers request k (own key / own echo / OK / an error for a failed backend exchange), counts equal; non-trivial = a cut or fragmentation";
+pub const RULE_SESSION: &str = "[session] the full stack over loopback TCP: real handle_session -> Session -> ForwardHandler -> scripted backend (backend_conn_num 1..3); pipelined requests (backend GETs interleaved with locally answered PING/ECHO) written in generated fragments; oracle: reply k answers request k (own key / own echo / OK / an error for a failed backend exchange), counts equal; a quarter of the cases use a LAZY READER: small socket buffers, 9 KiB backend replies, the client pipelines everything and starts reading 150 ms later (the proxy's writes hit back-pressure); non-trivial = a cut or fragmentation";
 
 pub fn run(ctx: &Ctx, findings: &Findings) -> PropReport {
     let mut subs = vec![];
@@ -515,6 +519,7 @@ pub fn run(ctx: &Ctx, findings: &Findings) -> PropReport {
         subs.push(drive(ctx, findings, "backend-node", RULE_NODE, ctx.cases(20000, 400000), node_strategy, &check_node));
         subs.push(drive_enum(ctx, findings, "enumerated", RULE_ENUM, enumerated_cases(), true, &check_node));
         let sctx = Ctx { prop: ctx.prop.clone(), tier: ctx.tier, seed: ctx.seed, replay: None, verif_dir: ctx.verif_dir.clone(), workers: 8, started: ctx.started, scale: ctx.scale };
+        MAX_SHRINK_ITERS.store(48, std::sync::atomic::Ordering::Relaxed);
         subs.push(drive(&sctx, findings, "session", RULE_SESSION, ctx.cases(800, 16000), session_strategy, &check_session));
     }
     PropReport {
